@@ -593,6 +593,17 @@ def run(rep, tier):
     fsal_variants(rep, f)
     bdf_restart_rule(rep, f)
     xout_rule(rep, f)
+    # the interpolant handed to the callback belongs to the step just taken: its left end is the state the step started from
+    # (after ModifiedSolution: the modified state), its right end the state handed over - the identities C06 decides
+    rep.rule("R-AFF-ENDPT", "the interpolant handed to the callback satisfies u(0) == y_old (the state the step started from, the modified one after ModifiedSolution) and u(1) == y_new, as algebraic identities of the stored forms (explicit methods)")
+    ctx_ = aff.Ctx(f)
+    for m_ in aff.EXPLICIT:
+        t_ = aff.r_tableau(rep, ctx_, m_)
+        if t_ is None:
+            continue
+        df_ = aff.dense_form(rep, ctx_, m_, t_, "R-AFF-ENDPT")
+        if df_ is not None:
+            aff.r_endpt(rep, ctx_, m_, t_, df_)
     rep.rule("R-XOUT-PREPARED", "whenever the callback is handed an interpolant the coefficient buffer behind it was filled for this step: the hand-out condition implies the condition of every block writing the buffer (truth-table over the conditions' atoms)")
     xout_prepared_rule(rep, f)
     rep.explanation = ("All-paths structural check of the callback protocol in the six solve() functions: monitor automata for call multiplicity and "
